@@ -7,6 +7,11 @@ GridTargets == (100..140) \cup {117, 118, 133, 134, 150, 200, 333, 500, 999, 100
                               50000, 99999, 100000, 150000, 188679, 188680, 199999, 200000}
 GridObs == {0, 1, 50, 99, 100, 101, 300, 500, 999, 1000, 1001, 2000, 4000, 4001, 10000, 60000, 400000, 2000000}
 
+(* the thorough tier: every target of the low range (where the floor, the 1 Mbit/s seed and the 6 % / 2x bounds
+   interact), a 100 kbit/s lattice above it, and a dense set of observed rates *)
+GridTargetsFull == (100..5000) \cup {5000 + 100 * k : k \in 0..1950} \cup {188679, 188680, 199999}
+GridObsFull == {0, 1} \cup {50 * k : k \in 1..30} \cup {99, 101, 999, 1001, 2000, 4000, 4001, 10000, 60000, 400000, 2000000}
+
 VARIABLE phase    \* 0: a grid state, 1: after one tick
 
 States == {"Bootstrap", "Climbing", "Holding", "BackingOff", "Drain"}
